@@ -20,6 +20,7 @@ import (
 	"runtime"
 	"strconv"
 	"strings"
+	"sync/atomic"
 )
 
 func curGoid() int64 {
@@ -36,11 +37,20 @@ func curGoid() int64 {
 	return id
 }
 
+// stackSize: a little more than the last dump needed. Every attempt stops the world and
+// formats every goroutine of the process, so the first attempt should fit.
+var stackSize atomic.Int64
+
 func allStacks() string {
-	buf := make([]byte, 1<<20)
+	size := int(stackSize.Load())
+	if size < 1<<20 {
+		size = 1 << 20
+	}
+	buf := make([]byte, size)
 	for {
 		n := runtime.Stack(buf, true)
 		if n < len(buf) {
+			stackSize.Store(int64(n + n/4 + 1<<16))
 			return string(buf[:n])
 		}
 		if len(buf) >= 1<<28 {
